@@ -330,6 +330,12 @@ class SimNet:
             else:
                 try:
                     rsock.transport._protocol.datagram_received(data, addr)
+                except Exception as exc:  # noqa
+                    # asyncio's datagram transport calls datagram_received from its read callback: an exception goes to
+                    # the loop's exception handler, the transport stays open and the next datagram is read as usual
+                    self.loop.call_exception_handler({
+                        "message": f"Exception in callback {type(rsock.transport._protocol).__name__}.datagram_received()",
+                        "exception": exc, "transport": rsock.transport})
                 finally:
                     if self.after_rx is not None:
                         self.after_rx(rsock)
